@@ -41,8 +41,12 @@ func NewAVP(code uint32, flags uint8, vendor uint32, data datatype.Type) *AVP {
 // DecodeAVP decodes the bytes of a Diameter AVP.
 // It uses the given application id and dictionary for decoding the bytes.
 func DecodeAVP(data []byte, application uint32, dictionary *dict.Parser) (*AVP, error) {
+	return decodeAVP(data, application, dictionary, 0)
+}
+
+func decodeAVP(data []byte, application uint32, dictionary *dict.Parser, depth int) (*AVP, error) {
 	avp := &AVP{}
-	if err := avp.DecodeFromBytes(data, application, dictionary); err != nil {
+	if err := avp.decodeFromBytes(data, application, dictionary, depth); err != nil {
 		return avp, err
 	}
 	return avp, nil
@@ -51,6 +55,10 @@ func DecodeAVP(data []byte, application uint32, dictionary *dict.Parser) (*AVP, 
 // DecodeFromBytes decodes the bytes of a Diameter AVP.
 // It uses the given application id and dictionary for decoding the bytes.
 func (a *AVP) DecodeFromBytes(data []byte, application uint32, dictionary *dict.Parser) error {
+	return a.decodeFromBytes(data, application, dictionary, 0)
+}
+
+func (a *AVP) decodeFromBytes(data []byte, application uint32, dictionary *dict.Parser, depth int) error {
 	if len(data) < 8 {
 		return fmt.Errorf("Not enough data to decode AVP header: %d bytes", len(data))
 	}
@@ -98,9 +106,9 @@ func (a *AVP) DecodeFromBytes(data []byte, application uint32, dictionary *dict.
 	}
 	// Handle grouped AVPs.
 	if a.Data.Type() == datatype.GroupedType {
-		a.Data, err = DecodeGrouped(
+		a.Data, err = decodeGrouped(
 			a.Data.(datatype.Grouped),
-			application, dictionary,
+			application, dictionary, depth+1,
 		)
 		if err != nil {
 			return err
